@@ -85,7 +85,7 @@ def derive(lab, s):
                 # "restricted to leaf types": r must be a result of a LEAF-typed form of the derived search d
                 # (a list Finder also returns textual matches of non-leaf typed forms, e.g. 'x/*b' read as a node name)
                 t = model.natural(r)
-                if t is None or t.keys[-1] != leaf:
+                if t is None or t.keys[-1] != model.leaf_keys.get(model.basetype(t.name)):
                     return False
                 try:
                     forms = lab.allmodel.unfold(d)
